@@ -245,11 +245,15 @@ impl<'de> Deserialize<'de> for KeyBindings {
             .map(|(mode, inner_map)| {
                 let converted_inner_map = inner_map
                     .into_iter()
-                    .map(|(key_str, cmd)| (parse_key_sequence(&key_str).unwrap(), cmd))
-                    .collect();
-                (mode, converted_inner_map)
+                    .map(|(key_str, cmd)| {
+                        parse_key_sequence(&key_str)
+                            .map(|keys| (keys, cmd))
+                            .map_err(serde::de::Error::custom)
+                    })
+                    .collect::<Result<_, D::Error>>()?;
+                Ok((mode, converted_inner_map))
             })
-            .collect();
+            .collect::<Result<_, D::Error>>()?;
 
         Ok(KeyBindings(keybindings))
     }
@@ -453,7 +457,7 @@ impl<'de> Deserialize<'de> for Styles {
 
 pub fn parse_style(line: &str) -> Style {
     let (foreground, background) =
-        line.split_at(line.to_lowercase().find("on ").unwrap_or(line.len()));
+        line.split_at(line.to_ascii_lowercase().find("on ").unwrap_or(line.len()));
     let foreground = process_color_string(foreground);
     let background = process_color_string(&background.replace("on ", ""));
 
@@ -507,16 +511,24 @@ fn parse_color(s: &str) -> Option<Color> {
             .unwrap_or_default();
         Some(Color::Indexed(c))
     } else if s.contains("gray") {
-        let c = 232
-            + s.trim_start_matches("gray")
+        let c = 232u8.checked_add(
+            s.trim_start_matches("gray")
                 .parse::<u8>()
-                .unwrap_or_default();
+                .unwrap_or_default(),
+        )?;
         Some(Color::Indexed(c))
     } else if s.contains("rgb") {
-        let red = (s.as_bytes()[3] as char).to_digit(10).unwrap_or_default() as u8;
-        let green = (s.as_bytes()[4] as char).to_digit(10).unwrap_or_default() as u8;
-        let blue = (s.as_bytes()[5] as char).to_digit(10).unwrap_or_default() as u8;
-        let c = 16 + red * 36 + green * 6 + blue;
+        let digit = |i: usize| {
+            s.as_bytes()
+                .get(i)
+                .and_then(|b| (*b as char).to_digit(10))
+                .unwrap_or_default() as u8
+        };
+        let (red, green, blue) = (digit(3), digit(4), digit(5));
+        let c = 16u8
+            .checked_add(red.checked_mul(36)?)?
+            .checked_add(green.checked_mul(6)?)?
+            .checked_add(blue)?;
         Some(Color::Indexed(c))
     } else if s == "bold black" {
         Some(Color::Indexed(8))
